@@ -10,11 +10,11 @@ use super::*;
 use std::os::fd::FromRawFd;
 
 const BASE: usize = 60;
-const MAXN: usize = 4;
+const MAXN: usize = 5;
 static mut W: [usize; MAXN] = [0; MAXN];
 static mut BATCH_PTR: usize = 0;
 static mut LAST: (usize, usize) = (0, 0);
-static mut SENT: [(usize, usize, usize); 8] = [(0, 0, 0); 8];
+static mut SENT: [(usize, usize, usize); 8] = [(0, 0, 0); 8]; // at most n datagrams for n <= 5 spans
 static mut NSENT: usize = 0;
 static mut CONVERTS: usize = 0;
 
@@ -71,7 +71,8 @@ fn splitter(n: usize) {
         1 => vec![SpanRecord::default()],
         2 => vec![SpanRecord::default(), SpanRecord::default()],
         3 => vec![SpanRecord::default(), SpanRecord::default(), SpanRecord::default()],
-        _ => vec![SpanRecord::default(), SpanRecord::default(), SpanRecord::default(), SpanRecord::default()],
+        4 => vec![SpanRecord::default(), SpanRecord::default(), SpanRecord::default(), SpanRecord::default()],
+        _ => vec![SpanRecord::default(), SpanRecord::default(), SpanRecord::default(), SpanRecord::default(), SpanRecord::default()],
     };
     unsafe {
         BATCH_PTR = batch.as_ptr() as usize;
@@ -152,4 +153,13 @@ fn jg_splitter_n3() {
 #[kani::stub(std::net::UdpSocket::send_to, send_to_oracle)]
 fn jg_splitter_n4() {
     splitter(4);
+}
+
+#[kani::proof]
+#[kani::unwind(14)]
+#[kani::stub(JaegerReporter::convert, convert_oracle)]
+#[kani::stub(JaegerReporter::serialize, serialize_oracle)]
+#[kani::stub(std::net::UdpSocket::send_to, send_to_oracle)]
+fn jg_splitter_n5() {
+    splitter(5);
 }
